@@ -29,6 +29,10 @@ CONFIGS = {
                    get=[("BUILD", 0), ("MASK", None), ("NETBIOS", None), ("PARAMETER", b"q"), ("_HOSTHEADER", b"Host: front.example")],
                    post=[("BUILD", 0), ("BASE64", None), ("HEADER", b"X-Id"), ("BUILD", 1), ("MASK", None), ("NETBIOSU", None), ("PREPEND", b"d"), ("PARAMETER", b"data")],
                    recover=[("print", None), ("mask", None), ("base64url", None), ("prepend", 10), ("append", 5)]),
+    "same_verb_uri_append": dict(domains="a.example,/in/", submit="/out/", verb_get="POST", verb_post="POST",
+                                 get=[("BUILD", 0), ("BASE64URL", None), ("URI_APPEND", None)],
+                                 post=[("BUILD", 0), ("NETBIOS", None), ("URI_APPEND", None), ("BUILD", 1), ("PRINT", None)],
+                                 recover=[("print", None), ("mask", None)]),
     "swapped_verbs": dict(domains="a.example,/in", submit="/out", verb_get="POST", verb_post="GET",
                           get=[("BUILD", 0), ("BASE64", None), ("PRINT", None)],
                           post=[("BUILD", 0), ("BASE64URL", None), ("PARAMETER", b"i"), ("BUILD", 1), ("BASE64URL", None), ("HEADER", b"X-Data")],
@@ -150,7 +154,24 @@ def produce(client_mod, c2, beacon, key, conf_name, kinds, seed):
             elif m["kind"] == "P":
                 nxt = kinds[i + 1] if i + 1 < len(kinds) else None
                 if m["n"] != 1:
-                    raise core.MachineryError("the client API sends one callback per request")
+                    # several callbacks in one POST (what a real beacon does with queued output): the frames are produced with the
+                    # library's own encrypt_packet / transform_submit from the client's state, then sent like send_callback does
+                    out = b""
+                    for j in range(m["n"]):
+                        cl.counter += 1
+                        cb = rng.choice([0, 30, 32])
+                        data = rng.choice([b"", b"xy", b"out-%d-" % (m["first"] + j) + bytes(rng.randrange(256) for _ in range(rng.choice([1, 20, 40])))])
+                        pk = c2.CallbackPacket(counter=cl.counter, size=len(data), callback=c2.BeaconCallback(cb), data=data)
+                        out += c2.encrypt_packet(pk.dumps(), **cl.c2http.beacon_keys._asdict()).dumps()
+                        sent.append(("callback", m["first"] + j, (cl.counter, cb, data)))
+                    rq = cl.c2http.transform_submit.transform(c2.ClientC2Data(id=str(cl.beacon_id).encode(), output=out), request=cl._initial_post_request())
+                    peer.wire.append(peer.render_request(rq.method, urllib.parse.urljoin(cl.base_url, rq.uri.decode()), rq.headers,
+                                                         {k.decode(): v.decode() for k, v in rq.params.items()}, rq.body))
+                    if nxt is not None and nxt["kind"] == "Q":
+                        peer.wire.append(resp_wire({"status": 200, "reason": b"OK", "headers": [(b"Content-Length", b"0")], "body": b""}))
+                        i += 1
+                    i += 1
+                    continue
 
                 def req(method, url, headers=None, params=None, content=None, _nxt=nxt, **kw):
                     peer.wire.append(peer.render_request(method, url, headers, params, content))
@@ -231,9 +252,9 @@ def run(ctx):
 
     q = ctx.quick
     ctx.trusted += ["TLC", "Session.tla (Expect)", "harness team-server peer: own RSA (pow), AES-CBC from the raw block function, HMAC, transform encoder/decoder (ref/transform.py), HTTP rendering"]
-    ctx.assumptions += ["the client API sends one callback per POST (multi-packet POST bodies are covered by C05's framing)", "httpx is replaced inside the harness process; no network",
+    ctx.assumptions += ["send_callback sends one callback per POST; POSTs with 2-3 callbacks are produced with the library's own encrypt_packet / transform_submit from the client's state", "httpx is replaced inside the harness process; no network",
                         "a prefix-sharing URI is related traffic (routing is by prefix)"]
-    cfg_txt = lambda n: f'CONSTANTS\n MaxWire = {n}\n Variants = {{"rsa", "rand", "aeshmac", "rsa_aes"}}\n MaxCallbacks = 1\nSPECIFICATION Spec\nINVARIANT YieldedIsProjection\nINVARIANT Complete\nPROPERTY UnrelatedHarmless\nPROPERTY Monotone\nCHECK_DEADLOCK FALSE\n'  # noqa: E731
+    cfg_txt = lambda n: f'CONSTANTS\n MaxWire = {n}\n Variants = {{"rsa", "rand", "aeshmac", "rsa_aes"}}\n MaxCallbacks = 3\nSPECIFICATION Spec\nINVARIANT YieldedIsProjection\nINVARIANT Complete\nPROPERTY UnrelatedHarmless\nPROPERTY Monotone\nCHECK_DEADLOCK FALSE\n'  # noqa: E731
     r = ctx.tlc("Session", cfg_txt(6 if q else 8), name="model", timeout=3000)
     core.require_clean(r, "Session")
     core.require_coverage(r, ["CheckIn", "ServeTask", "ServeEmpty", "Callback", "ServePost", "Unrelated", "Decode"])
